@@ -682,13 +682,15 @@ def idgames_strategy():
         # an honest, valid chain: line 0 assumes x = y; every other line flips an EARLIER line of opposite polarity;
         # then exactly one line is made adversarial (identifier and/or citation), keeping its step locally valid.
         n = draw(st.integers(3, 5))
-        b = draw(st.integers(1, n - 1)) if draw(st.integers(0, 2)) == 0 else None      # a block at top-level position b
+        # blocks at up to two top-level positions (two blocks: a line of the later one may cite into the earlier one)
+        nb = draw(st.sampled_from([0, 0, 0, 1, 1, 2]))
+        blocks = sorted(draw(st.lists(st.integers(1, n - 1), min_size=nb, max_size=nb, unique=True))) if nb else []
         pos = []
         for i in range(n):
             pos.append((i,))
-            if i == b:
+            if i in blocks:
                 pos += [(i, 0), (i, 1)]
-        lines = [p for p in pos if p != (b,)]
+        lines = [p for p in pos if not (len(p) == 1 and p[0] in blocks)]
         hyp = [eq(x, y)]
         pol = {lines[0]: 0}
         cite = {}
@@ -702,6 +704,9 @@ def idgames_strategy():
             cite[p] = q
             pol[p] = 1 - pol[q]
         j = draw(st.sampled_from(lines[1:]))
+        sibling = len(blocks) == 2 and draw(st.booleans())
+        if sibling:
+            j = (blocks[1], draw(st.integers(0, 1)))        # a line of the later block ...
         others = [q for q in lines if q != j and pol[q] != pol[j]]
         mode = draw(st.sampled_from(['dup', 'dup', 'shift', 'nest', 'neg', 'honest']))
         if mode == 'honest':
@@ -715,6 +720,12 @@ def idgames_strategy():
         else:
             ident = j[:-1] + (-1,)
         jq = draw(st.sampled_from(others + [(-1,)])) if (others and draw(st.integers(0, 4)) != 0) else draw(st.sampled_from(lines + [(-1,), (n,)]))
+        if sibling:
+            inside = [q for q in others if len(q) == 2 and q[0] == blocks[0]]
+            if inside:
+                jq = draw(st.sampled_from(inside))           # ... cites into the earlier, closed block
+                mode = draw(st.sampled_from(['honest', 'honest', mode]))
+                ident = j if mode == 'honest' else ident
         drop_hyp = draw(st.booleans())
 
         def mk(p):
@@ -726,7 +737,7 @@ def idgames_strategy():
             return item(list(p), 'symmetric', None, [list(cite[p])], th)
         its = []
         for i in range(n):
-            if i == b:
+            if i in blocks:
                 blk = item([i], 'subproof', None, [], None, [mk((i, 0)), mk((i, 1))])
                 its.append(blk)
             else:
